@@ -139,7 +139,14 @@ static int roundtripMain(const std::vector<std::string>&, std::istream& in, std:
         }
         KindLister k1(t1.get());
         k1.visit(t1->rootNode());
-        if (k1.ambiguous) { out << "skip ambiguity-left\n"; continue; }
+        // an ambiguity node left in a mode that does not resolve every ambiguity is not C03's subject; in the resolving modes (the property's
+        // "default disambiguation mode") a clean parse that still holds one is compared like any other tree (its unparsing repeats tokens)
+        {
+            // options spec "<std>,<kw>,<comments>,<disambiguation mode>,<flags>": modes 2 and 3 resolve every ambiguity
+            size_t c1 = w[0].find(','), c2 = c1 == std::string::npos ? c1 : w[0].find(',', c1 + 1), c3 = c2 == std::string::npos ? c2 : w[0].find(',', c2 + 1);
+            bool resolving = c3 != std::string::npos && c3 + 1 < w[0].size() && (w[0][c3 + 1] == '2' || w[0][c3 + 1] == '3');
+            if (k1.ambiguous && !resolving) { out << "skip ambiguity-left\n"; continue; }
+        }
         // the dumper against the child lists
         std::map<unsigned, unsigned> idx;
         for (unsigned i = 1; i < t1->tokenCount(); ++i) idx.emplace(t1->tokenAt(i).byteOffset_, i);
